@@ -921,6 +921,47 @@ MODELLED_STR_TO_CLASS = {
 }
 
 
+# modules whose attributes the model's look-ups cover; `direct.nn.<…>` paths are computed from the model name
+KNOWN_LOOKUP_MODULES = {"direct.data.datasets_config", "direct.data.transforms", "direct.common.subsample", "direct.data.datasets",
+                        "direct.functionals", "torch.optim"}
+
+
+def lookup_module_known(arg: ast.AST, fn: ast.FunctionDef, tree: ast.Module, depth: int = 0) -> bool:
+    """the module expression of a `str_to_class` site denotes one of the modelled modules — whatever the enclosing function is
+    called: a constant, an f-string / concatenation starting with `direct.nn.`, a local assigned once from such an expression,
+    or a parameter that every call of the function in the file binds to such an expression"""
+    if depth > 4:
+        return False
+    if isinstance(arg, ast.Constant) and isinstance(arg.value, str):
+        return arg.value in KNOWN_LOOKUP_MODULES or arg.value.startswith("direct.nn.")
+    if isinstance(arg, ast.JoinedStr) and arg.values and isinstance(arg.values[0], ast.Constant):
+        return str(arg.values[0].value).startswith("direct.nn.")
+    if isinstance(arg, ast.BinOp) and isinstance(arg.op, ast.Add):
+        return lookup_module_known(arg.left, fn, tree, depth + 1)
+    if isinstance(arg, ast.Name):
+        assigns = [n.value for n in ast.walk(fn) if isinstance(n, ast.Assign) and len(n.targets) == 1
+                   and isinstance(n.targets[0], ast.Name) and n.targets[0].id == arg.id]
+        if len(assigns) == 1:
+            return lookup_module_known(assigns[0], fn, tree, depth + 1)
+        params = [a.arg for a in fn.args.args]
+        if not assigns and arg.id in params:
+            idx = params.index(arg.id)
+            calls = []
+            for outer, _cls in _enclosing_functions(tree):
+                for n in ast.walk(outer):
+                    if isinstance(n, ast.Call) and ast.unparse(n.func).split(".")[-1] == fn.name and outer is not fn:
+                        bound = None
+                        off = 1 if params and params[0] in ("self", "cls") else 0
+                        if idx - off < len(n.args) and idx - off >= 0:
+                            bound = n.args[idx - off]
+                        for kw in n.keywords:
+                            if kw.arg == arg.id:
+                                bound = kw.value
+                        calls.append((bound, outer))
+            return bool(calls) and all(b is not None and lookup_module_known(b, o, tree, depth + 1) for b, o in calls)
+    return False
+
+
 def _enclosing_functions(tree: ast.Module):
     """yield (function node, class name or None) for every function, innermost last"""
     def rec(body, cls):
@@ -1087,8 +1128,12 @@ def collect(info, mods: dict, repo: pathlib.Path):
                     if cname == "str_to_class" or (isinstance(n.func, ast.Name) and cname in helpers):
                         inner = enclosing(rel, n.lineno)
                         if inner and inner[2] == name:
-                            info.str_to_class_sites.append((rel, name, ast.unparse(n.args[0])[:60],
-                                                            (rel, name) in MODELLED_STR_TO_CLASS))
+                            marg = n.args[0]
+                            if cname != "str_to_class":
+                                mi, _ai, ps = helpers[cname]
+                                marg = n.args[mi] if mi < len(n.args) else next((kw.value for kw in n.keywords if kw.arg == ps[mi]), marg)
+                            known = lookup_module_known(marg, f, _module_ast(str(p)))
+                            info.str_to_class_sites.append((rel, name, ast.unparse(marg)[:60], known))
     info.str_to_class_sites = sorted(set(info.str_to_class_sites))
     # ---- interpolation / Hydra-style `defaults` lists in the shipped files ------------------------------------------------
     def walk_vals(v, where, rel):
